@@ -68,7 +68,9 @@ type vfc13M struct {
 	V string           `json:"value"`
 }
 
-func (m vfc13M) String() string { return fmt.Sprintf("{name=%q type=%q value=%q}", m.N, m.T.String(), m.V) }
+func (m vfc13M) String() string {
+	return fmt.Sprintf("{name=%q type=%q value=%q}", m.N, m.T.String(), m.V)
+}
 
 // vfc13Item is one cacheable item. ident() is the monitor's own unambiguous identity (NUL separated;
 // NUL never occurs in generated strings).
@@ -240,7 +242,7 @@ func (f *vfc13FakeMemcached) Stop()  {}
 func (f *vfc13FakeMemcached) reset() { f.mu.Lock(); f.m = map[string][]byte{}; f.mu.Unlock() }
 
 type vfc13Mon struct {
-	r        *vfkit.Run
+	r *vfkit.Run
 	// digest(key) -> ident. Keys are stored by digest to keep millions of them in memory; an equal digest
 	// is only a candidate: the real key of the earlier item is recomputed and compared as a string.
 	index    map[[16]byte]string // key space of the index caches (P, EP, S)
